@@ -131,7 +131,31 @@ def members_after_own_network(ctx: Ctx, rep: Report, f: Func, q: str, of) -> Non
                 return True
         return False
 
-    own = [c for c in cfg.live if c.kind == "cond" and about_other(c.ast, ("_get_ipnet", "ipnet", "_ipnet"))]
+    # a test of a local that was bound to the operand's network (`net = self._get_ipnet(other)` ... `if net:`) is that test
+    binds: Dict[str, List[ast.AST]] = {}
+    def _top_level(x: ast.AST) -> bool:
+        par = getattr(x, "_parent", None)
+        while par is not None and par is not f.node:
+            if isinstance(par, (ast.FunctionDef, ast.AsyncFunctionDef, ast.Lambda)):
+                return False
+            par = getattr(par, "_parent", None)
+        return True
+
+    for x in own_nodes(f.node):
+        if isinstance(x, (ast.Assign, ast.AnnAssign)) and getattr(x, "value", None) is not None and _top_level(x):
+            t0 = x.targets[0] if isinstance(x, ast.Assign) else x.target
+            if isinstance(t0, ast.Name):
+                binds.setdefault(t0.id, []).append(x.value)
+
+    def cond_expr(c_ast: ast.AST) -> ast.AST:
+        e = c_ast
+        if isinstance(e, ast.UnaryOp) and isinstance(e.op, ast.Not):
+            e = e.operand
+        if isinstance(e, ast.Name) and e.id in binds and all(about_other(v, ("_get_ipnet", "ipnet", "_ipnet")) for v in binds[e.id]):
+            return binds[e.id][0]
+        return c_ast
+
+    own = [c for c in cfg.live if c.kind == "cond" and about_other(cond_expr(c.ast), ("_get_ipnet", "ipnet", "_ipnet"))]
     mem = [n for n in cfg.live if n.ast is not None and n.kind in ("stmt", "cond", "for") and about_other(n.ast.iter if n.kind == "for" else n.ast, ("_get_items", "items", "_items"))]
     if not mem:
         return
